@@ -3,7 +3,16 @@
 //!
 //! tokens (values hex, `-` = empty): n= v= l= a= s=   (name version license arch summary, required)
 //!   e=<u32> r= d= ve= pk= g= u= vc= ck= bh=  sd=<u32> now=<u32> lf=<u64> c=<none|gzip:L|zstd:L|xz:L|bzip2:L>
-//!   f=<dest>:<mode|i<mode>>:<user>:<group>:<flags>:<caps|~>:<link>:<mtime>:<seed>:<size>:<verifyflags|~>
+//!   f=<dest>:<mode>:<user>:<group>:<flags>:<caps|~>:<link>:<mtime>:<seed>:<size>:<verifyflags|~>[:<extras>]
+//!     <mode>   i<perm>  no mode() call; the source file is chmod-ed to <perm> (DECIMAL, all 12 bits) and the mode is inherited
+//!              <n>      .mode(n as i32) after symlink(); n is a SIGNED decimal (values outside 16 bits become FileMode::Invalid)
+//!              f<n> / l<n>  the same call made first (right after new()) / last (after the flag setters); u<n>  .mode(n as u16)
+//!     <flags>  `+`-separated is_* setter names without the prefix, in call order (`config_noreplace+doc`); 0 = none;
+//!              a number = legacy encoding (bit 2 doc, 1 config, 16 config_noreplace, 64 ghost, 128 license, 256 readme)
+//!     <mtime>  signed seconds (pre-1970 and post-2106 are legal file times); extras: `+`-separated ns=<nanos>,
+//!              k=<dir|missing> (the source path is a directory / does not exist)
+//!   c=<none|gzip:L|zstd:L|xz:L|bzip2:L>  compression(CompressionWithLevel); c=<type>:d  compression(CompressionType::<type>);
+//!     no c= token: no compression() call at all (CompressionWithLevel::default())
 //!   dp=<prov|req|conf|obs|rec|sug|enh|sup>:<name>:<flags>:<version>
 //!   sc=<prein|postin|preun|postun|pretrans|posttrans|preuntrans|postuntrans|verify>:<script>:<flags|~>:<p1,p2|~|->
 //!   cl=<name>:<text>:<time>
@@ -57,6 +66,10 @@ pub fn builder_from(tokens: &[&str]) -> Result<rpm::PackageBuilder, rpm::Error> 
     }
     if let Some(x) = get("c") {
         let (ty, lvl) = x.split_once(':').unwrap_or((x, "0"));
+        if lvl == "d" {
+            // `compression(CompressionType)`: the level comes from `From<CompressionType> for CompressionWithLevel`
+            b = b.compression(ty.parse::<rpm::CompressionType>().expect("bad compression type"));
+        } else {
         let c = match ty {
             "none" => rpm::CompressionWithLevel::None,
             "gzip" => rpm::CompressionWithLevel::Gzip(lvl.parse().unwrap()),
@@ -66,6 +79,7 @@ pub fn builder_from(tokens: &[&str]) -> Result<rpm::PackageBuilder, rpm::Error> 
             _ => panic!("bad compression"),
         };
         b = b.compression(c);
+        }
     }
     let dir = scratch_dir();
     let mut fi = 0;
@@ -74,38 +88,54 @@ pub fn builder_from(tokens: &[&str]) -> Result<rpm::PackageBuilder, rpm::Error> 
         if let Some(r) = t.strip_prefix("f=") {
             let p: Vec<&str> = r.split(':').collect();
             let (dest, mode, user, group, flags, caps, link, mtime, seed, size, vf) =
-                (hs(p[0]), p[1], hs(p[2]), hs(p[3]), p[4].parse::<u32>().unwrap(), p[5], hs(p[6]), p[7].parse::<i64>().unwrap(), p[8].parse::<u64>().unwrap(), p[9].parse::<usize>().unwrap(), p[10]);
+                (hs(p[0]), p[1], hs(p[2]), hs(p[3]), p[4], p[5], hs(p[6]), p[7].parse::<i64>().unwrap(), p[8].parse::<u64>().unwrap(), p[9].parse::<usize>().unwrap(), p[10]);
+            let extras: Vec<&str> = if p.len() > 11 { p[11].split('+').collect() } else { vec![] };
+            let extra = |k: &str| extras.iter().find_map(|e| e.strip_prefix(k).and_then(|r| r.strip_prefix('=')));
+            let nanos: u32 = extra("ns").map(|x| x.parse().unwrap()).unwrap_or(0);
+            let kind = extra("k").unwrap_or("reg");
             // every fourth file re-uses the previous file's source path, rewritten with its own content (and given
             // its own mtime) between the two `with_file` calls: the builder must take what the path holds NOW
             let src = match &last_src {
-                Some(prev) if seed % 4 == 2 => prev.clone(),
+                Some(prev) if seed % 4 == 2 && kind == "reg" => prev.clone(),
                 _ => dir.join(format!("src{}", fi)),
             };
             fi += 1;
-            let _ = std::fs::set_permissions(&src, std::fs::Permissions::from_mode(0o644));
-            std::fs::write(&src, content(seed, size))?;
-            last_src = Some(src.clone());
-            let mut o = rpm::FileOptions::new(dest).user(user).group(group).symlink(link);
-            if let Some(m) = mode.strip_prefix('i') {
-                std::fs::set_permissions(&src, std::fs::Permissions::from_mode(m.parse::<u32>().unwrap() & 0o7777))?;
-            } else {
-                o = o.mode(mode.parse::<i32>().unwrap());
+            // where the mode() call goes: 'i' none (inherit), 'm' after symlink(), 'f' first, 'l' last, 'u' as u16
+            let (pos, marg) = match mode.chars().next() {
+                Some(c @ ('i' | 'f' | 'l' | 'u')) => (c, &mode[1..]),
+                _ => ('m', mode),
+            };
+            let set_mode = |o: rpm::FileOptionsBuilder| -> rpm::FileOptionsBuilder {
+                if pos == 'u' { o.mode(marg.parse::<u16>().unwrap()) } else { o.mode(marg.parse::<i32>().unwrap()) }
+            };
+            match kind {
+                "dir" => { let _ = std::fs::remove_file(&src); std::fs::create_dir_all(&src)?; }
+                "missing" => { let _ = std::fs::remove_file(&src); let _ = std::fs::remove_dir(&src); }
+                _ => {
+                    let _ = std::fs::remove_dir(&src);
+                    let _ = std::fs::set_permissions(&src, std::fs::Permissions::from_mode(0o644));
+                    std::fs::write(&src, content(seed, size))?;
+                    last_src = Some(src.clone());
+                    if pos == 'i' {
+                        std::fs::set_permissions(&src, std::fs::Permissions::from_mode(marg.parse::<u32>().unwrap() & 0o7777))?;
+                    }
+                    let f = std::fs::File::options().write(true).open(&src)?;
+                    f.set_modified(file_time(mtime, nanos))?;
+                    drop(f);
+                }
             }
+            let mut o = rpm::FileOptions::new(dest);
+            if pos == 'f' { o = set_mode(o); }
+            o = o.user(user).group(group).symlink(link);
+            if pos == 'm' || pos == 'u' { o = set_mode(o); }
             if caps != "~" { o = o.caps(hs(caps))?; }
             if vf != "~" { o = o.verify(rpm::FileVerifyFlags::from_bits_retain(vf.parse().unwrap())); }
-            let f = std::fs::File::options().write(true).open(&src)?;
-            f.set_modified(std::time::UNIX_EPOCH + std::time::Duration::from_secs(mtime as u64))?;
-            drop(f);
             // flags: FileOptionsBuilder only has named setters
-            if flags & 2 != 0 { o = o.is_doc(); }
-            if flags & 1 != 0 { o = o.is_config(); }
-            if flags & 16 != 0 { o = o.is_config_noreplace(); }
-            if flags & 64 != 0 { o = o.is_ghost(); }
-            if flags & 128 != 0 { o = o.is_license(); }
-            if flags & 256 != 0 { o = o.is_readme(); }
+            for name in flag_setter_names(flags) { o = apply_flag_setter(o, &name); }
+            if pos == 'l' { o = set_mode(o); }
             // every third source is handed over through a symbolic link: the builder must package (and inherit
             // mode / mtime from) the file the path resolves to, as `File::open` + `metadata()` do
-            if seed % 3 == 1 {
+            if seed % 3 == 1 && kind == "reg" {
                 let lnk = dir.join(format!("src{}.lnk", fi));
                 let _ = std::fs::remove_file(&lnk);
                 // relative target, resolved in the link's own directory
@@ -143,6 +173,55 @@ pub fn builder_from(tokens: &[&str]) -> Result<rpm::PackageBuilder, rpm::Error> 
         if let Some(x) = get("sd") { b = apply_source_date(b, x.parse::<u32>().unwrap(), get("sdk").unwrap_or("u32")); }
     }
     Ok(b)
+}
+
+/// the instant `secs + nanos / 10^9` seconds after the epoch (`secs` is the floor, also before 1970) as a file time
+pub fn file_time(secs: i64, nanos: u32) -> std::time::SystemTime {
+    use std::time::{Duration, UNIX_EPOCH};
+    if secs >= 0 {
+        UNIX_EPOCH + Duration::new(secs as u64, nanos)
+    } else if nanos == 0 {
+        UNIX_EPOCH - Duration::new(secs.unsigned_abs(), 0)
+    } else {
+        UNIX_EPOCH - Duration::new(secs.unsigned_abs() - 1, 1_000_000_000 - nanos)
+    }
+}
+
+/// the `is_*` setters a flags field names, in call order (names without the `is_` prefix)
+pub fn flag_setter_names(field: &str) -> Vec<String> {
+    if let Ok(bits) = field.parse::<u32>() {
+        // legacy wire encoding (a convention of this protocol, not rpm's constants: the Lean driver decodes it the same
+        // way and computes the resulting flag word from the table scraped from types.rs)
+        [(2u32, "doc"), (1, "config"), (16, "config_noreplace"), (64, "ghost"), (128, "license"), (256, "readme")]
+            .iter().filter(|(b, _)| bits & b != 0).map(|(_, n)| n.to_string()).collect()
+    } else if field == "-" {
+        vec![]
+    } else {
+        field.split('+').map(|x| x.to_string()).collect()
+    }
+}
+
+pub fn apply_flag_setter(o: rpm::FileOptionsBuilder, name: &str) -> rpm::FileOptionsBuilder {
+    match name {
+        "doc" => o.is_doc(),
+        "config" => o.is_config(),
+        "config_noreplace" => o.is_config_noreplace(),
+        "ghost" => o.is_ghost(),
+        "license" => o.is_license(),
+        "readme" => o.is_readme(),
+        _ => panic!("unknown flag setter {}", name),
+    }
+}
+
+/// the codec `CompressionWithLevel::default()` selects in this build of rpm-rs
+pub fn default_comp_kind() -> &'static str {
+    match rpm::CompressionWithLevel::default() {
+        rpm::CompressionWithLevel::None => "none",
+        rpm::CompressionWithLevel::Gzip(_) => "gzip",
+        rpm::CompressionWithLevel::Zstd(_) => "zstd",
+        rpm::CompressionWithLevel::Xz(_) => "xz",
+        rpm::CompressionWithLevel::Bzip2(_) => "bzip2",
+    }
 }
 
 pub fn cleanup() {
@@ -197,8 +276,7 @@ pub fn observe_build(tokens: &[&str]) -> String {
         let p2 = rpm::Package::parse(&mut &bytes[..])?;
         let o = p2.metadata.get_package_segment_offsets();
         let (s, h, pl) = (o.signature_header as usize, o.header as usize, o.payload as usize);
-        let comp = tokens.iter().find_map(|t| t.strip_prefix("c=")).unwrap_or("zstd:19");
-        let kind = comp.split(':').next().unwrap();
+        let kind = tokens.iter().find_map(|t| t.strip_prefix("c=")).map(|c| c.split(':').next().unwrap()).unwrap_or(default_comp_kind());
         let arch = decompress(kind, &bytes[pl..]);
         Ok(format!(
             "ok paysha={} archsha={} lead={:016x} sig={:016x} hdr={:016x} hlen={} same={} || {} {}",
